@@ -114,7 +114,12 @@ def run(pid, seed=0, max_cases=60):
         raise MachineryError(f"selftest {pid}: no recorded batch under {d} (run the check first)")
     tried, rejected, examples = {}, {}, []
     for f in files:
-        b = json.load(open(f))
+        try:
+            b = json.load(open(f))
+        except Exception:
+            continue
+        if not isinstance(b, dict) or not isinstance(b.get("cases"), list):
+            continue      # not a batch TLC judged (e.g. start states of a simulation)
         cases = b.get("cases", [])
         if not cases:
             continue
